@@ -125,10 +125,9 @@ class Gen:
 
     def itemref(self, n):
         """a reference through the DataFrame object: df[...] (bare or back-ticked) or df.<name>"""
-        v = self.ref(n)
-        if not v.startswith("`") and v.isidentifier() and self.r.random() < 0.4:
-            return ("attr", v)
-        return ("item", v)
+        if n.isidentifier() and self.r.random() < 0.35:
+            return ("attr", n)          # PySpark's df.<name> only accepts the exact current spelling
+        return ("item", self.ref(n))
 
     def selarg(self, n, ns):
         r = self.r.random()
@@ -212,13 +211,48 @@ class Gen:
             return ("limit",)
         return ("distinct",)
 
+    SELECT_CLASS = {"select", "withColumn", "withColumnItem", "withColumnRenamed", "toDF", "drop", "fillna", "agg", "groupAgg",
+                    "distinct", "dropDuplicates"}
+    KEEP_CLASS = {"orderBy", "orderByItems", "limit"}
+
+    def avoid_right_items(self, op, right):
+        """while a join is still the FROM of the open SELECT, df[x] for a column x of the RIGHT frame is bound to the left
+        table by sqlframe and raises (staged finding C10/df-item-right-column-after-join-raises, kept in CORPUS): such
+        references are written F.col(x) here so that they do not mask everything that follows"""
+        isr = lambda v: key(attr(v)) in right
+        k = op[0]
+        if k in ("select", "groupAgg"):
+            args = [("col", a[1]) if a[0] in ("item", "attr") and isr(a[1]) else a for a in op[1]]
+            return (k, args) + tuple(op[2:])
+        if k == "whereItem" and isr(op[1]):
+            return ("where", op[1])
+        if k == "withColumnItem" and isr(op[2]):
+            return ("withColumn", op[1], op[2])
+        if k == "orderByItems" and any(isr(v) for v in op[1]):
+            return ("limit",)
+        if k == "joinOn" and isr(op[2]):
+            return ("limit",)
+        return op
+
     def program(self, maxlen):
         r = self.r
         n0 = self.fresh([], r.randint(1, 4))
         ns = list(n0)
         ops = []
+        right, jstate = set(), None
         for _ in range(r.randint(1, maxlen)):
             op = self.step(ns, ops[-1][0] if ops else None)
+            if jstate:
+                op = self.avoid_right_items(op, right)
+            if op[0] in ("join", "joinOn"):
+                right = (right if jstate == "join" else set()) | {key(x) for x in op[1]}
+                jstate = "join"
+            elif jstate == "join" and op[0] in self.SELECT_CLASS:
+                jstate = "join+select"
+            elif jstate and (op[0] in self.KEEP_CLASS or (jstate == "join" and op[0] in ("where", "whereItem"))):
+                pass
+            else:
+                jstate, right = None, set()
             ops.append(op)
             ns = py_spec_step(op, ns)
             if not ns or len({key(x) for x in ns}) != len(ns) and r.random() < 0.8:
@@ -475,11 +509,12 @@ CORPUS = [
     {"names": ["AB", "Xy"], "ops": [("agg", ["Mx", "c d"])]},
     # references through the DataFrame object
     {"names": ["AB", "Xy"], "ops": [("select", [("item", "Xy"), ("attr", "AB")])]},
-    {"names": ["AB", "Xy", "c d"], "ops": [("select", [("item", "XY"), ("attr", "ab"), ("item", "`C d`")])]},
+    {"names": ["AB", "Xy", "c d"], "ops": [("select", [("item", "XY"), ("attr", "AB"), ("item", "`C d`")])]},
     {"names": ["AB", "Xy"], "ops": [("whereItem", "xy"), ("select", [("item", "xY")]), ("withColumnItem", "Nn", "XY")]},
     {"names": ["AB", "Xy"], "ops": [("orderByItems", ["ab", "XY"])]},
     {"names": ["AB", "Xy"], "ops": [("select", [("alias", "ab", "Zz"), ("str", "xy")]), ("orderByItems", ["zz"])]},
     {"names": ["AB", "Xy"], "ops": [("joinOn", ["Kk", "Other"], "ab", "KK"), ("select", [("item", "XY"), ("item", "OTHER")])]},
+    {"names": ["AB"], "ops": [("joinOn", ["kk", "other"], "ab", "KK"), ("select", [("str", "ab"), ("item", "OTHER")])]},
     {"names": ["AB", "c d"], "ops": [("groupAgg", [("item", "C D")], ["n"])]},
     {"names": ["AB", "Xy"], "ops": [("withColumn", "Nn", "ab"), ("groupAgg", [("item", "xy")], ["n"])]},
 ]
@@ -513,6 +548,8 @@ def signature(prog, k, st, o, kind):
                 "select", "withColumn", "withColumnItem", "withColumnRenamed", "toDF", "agg", "groupAgg", "drop", "fillna",
                 "dropDuplicates", "distinct"):
             return "C10/orderBy-df-item-after-select-raises"
+        if err == "BinderException" and _right_item_after_join(prog, k):
+            return "C10/df-item-right-column-after-join-raises"
         if m == "groupAgg" and err == "BinderException" and any(a[0] in ("item", "attr") for a in op[1]):
             return "C10/groupBy-df-item-after-select-raises"
         if m == "join" and err == "ValueError" and any(needs_ticks(v) for v in op[2]):
@@ -543,6 +580,30 @@ def signature(prog, k, st, o, kind):
         # later bare references (withColumn / withColumnRenamed / drop) do not find the column
         return "C10/backticked-plain-name-quoted-item"
     return f"C10/{m}:" + "+".join(bad)
+
+
+def _item_refs(op):
+    k = op[0]
+    if k in ("select", "groupAgg"):
+        return [a[1] for a in op[1] if a[0] in ("item", "attr")]
+    if k == "whereItem":
+        return [op[1]]
+    if k == "withColumnItem":
+        return [op[2]]
+    if k == "orderByItems":
+        return list(op[1])
+    if k == "joinOn":
+        return [op[2]]
+    return []
+
+
+def _right_item_after_join(prog, k):
+    """step k references through df[...] a column that an earlier join brought in from the right frame"""
+    right = set()
+    for op in prog["ops"][:k - 1]:
+        if op[0] in ("join", "joinOn"):
+            right |= {key(x) for x in op[1]}
+    return any(key(attr(v)) in right for v in _item_refs(prog["ops"][k - 1]))
 
 
 def _ticked_plain_before(prog, k):
